@@ -15,7 +15,7 @@ RULE = (
     "aggregator instance, "
     "1<=m<=6, 1<=n<=9. Oracle "
     "(metamorphic): |A(diag(a c1 + b c2) J) - a A(diag(c1) J) - b A(diag(c2) J)| <= K eps sum of scales for Mean, "
-    "Sum, Constant(drawn weights), ConFIG(pref), PCGrad (scripted schedule, branch margins above threshold) and "
+    "Sum, Constant(drawn weights), ConFIG(pref), PCGrad (scripted schedule; branch ties included, family `orthoblock`) and "
     "Random (equal seeds). UPGrad(pref): for every rung of the ladder reg_eps in {1e-2,1e-4,...,1e-12} (float64; "
     "float32 only rungs >= 1e-4) on the same (J, c1, c2, a, b): defect <= C sqrt(reg_eps) sum_k coef_k kappa_k s_k "
     "|w_k| + fp with C = 2 and kappa_k = s_k / min_i |row_i| the row imbalance of the scaled matrix (the statement "
